@@ -203,3 +203,40 @@ func VerifC15_Session() {
 	}
 	vf.Reach("end")
 }
+
+// Size rules of the message-level API: a message whose fragments are each within the limit but
+// whose total exceeds it, and a message that does not fit the caller's buffer, are rejected with an
+// error and not delivered as data.
+func VerifC15_SizeLimits() {
+	max := 300
+	var sc wsScript
+	bufLen := 1000
+	switch vf.Choice("case", 2) {
+	case 0: // 200 + 200 > 300
+		sc.f[0] = wsFrame{fin: false, opcode: 1 + byte(vf.Choice("type", 2)), n: 200, payload: vf.Bytes("frag1", 200)}
+		sc.f[1] = wsFrame{fin: true, opcode: 0, n: 200, payload: vf.Bytes("frag2", 200)}
+		sc.n = 2
+		vf.Reach("message-total-over-max")
+	case 1: // 10-byte message, 4-byte buffer
+		sc.f[0] = wsFrame{fin: true, opcode: 2, n: 10, payload: vf.Bytes("msg", 10)}
+		sc.n = 1
+		bufLen = 4
+		vf.Reach("caller-buffer-too-small")
+	}
+	sc.encode()
+	t := &sonic.VerifTransport{In: sc.wire, Total: len(sc.wire), Concrete: true, MaxWSegs: 1, MaxSegs: 2, SplitLimit: 3}
+	s := wsNewStream(t, max)
+	vf.Unwind(400)
+	b := make([]byte, bufLen)
+	var err error
+	if vf.Bool("async") {
+		calls := 0
+		s.AsyncNextMessage(b, func(e error, n int, mt MessageType) { calls++; err = e })
+		vf.Assert("asyncnextmessage-once", calls == 1)
+	} else {
+		_, _, err = s.NextMessage(b)
+	}
+	vf.Assert("oversized-message-is-an-error", err != nil)
+	vf.Assert("writes-refused-after-the-client-starts-closing", vf.Implies(s.State() != StateActive, s.Write([]byte("x"), TypeText) != nil))
+	vf.Reach("end")
+}
